@@ -77,13 +77,13 @@ FieldWr(M, p, fd, depth) ==
                     W(W(W(b, "op", "MSet"), "k", k1), "x", ZeroOf(fd.vk)),
                     W(W(W(W(b, "op", "MSet"), "k", k1), "x", v1), "via", "get"),
                     W(W(b, "op", "MClear"), "k", k1), W(W(b, "op", "MClear"), "k", k2),
-                    W(W(W(b, "op", "MRetained"), "k", k2), "x", v1), W(b, "op", "Clear"), W(b, "op", "SetNew"),
+                    W(W(W(b, "op", "MRetained"), "k", k2), "x", v1), W(W(W(b, "op", "MSetFill"), "k", k1), "x", v2), W(b, "op", "Clear"), W(b, "op", "SetNew"),
                     W(b, "op", "ViewClear"), W(b, "op", "SetInvalid") >>
          [] fd.card = "map" ->
               LET k1 == Pool(fd.kk)[1]
                   k2 == Pool(fd.kk)[2]
               IN << W(W(b, "op", "MMutable"), "k", k1), W(W(b, "op", "MSetNew"), "k", k2), W(W(b, "op", "MClear"), "k", k1),
-                    W(W(W(b, "op", "MMutable"), "k", k1), "via", "get"), W(W(b, "op", "MRetained"), "k", k2), W(b, "op", "Clear"),
+                    W(W(W(b, "op", "MMutable"), "k", k1), "via", "get"), W(W(b, "op", "MRetained"), "k", k2), W(W(b, "op", "MSetFill"), "k", k2), W(b, "op", "Clear"),
                     W(b, "op", "ViewClear"), W(b, "op", "SetInvalid") >>
                  \o (IF depth > 0 THEN WrOps(fd.vmsg, Append(p, StepK(fd.num, k1)), depth - 1) ELSE <<>>)
 
@@ -91,7 +91,7 @@ WrOps(M, p, depth) ==
     LET fs == FieldsOf(S, M)
     IN ConcatAll([i \in 1..Len(fs) |-> FieldWr(M, p, fs[i], depth)])
        \o << W(MkOp("SetUnknown", p, 0), "u", UnkBytes(M)), W(MkOp("SetUnknown", p, 0), "u", <<>>),
-             W(MkOp("SetUnknownHold", p, 0), "u", UnkBytes2(M)) >>
+             W(MkOp("SetUnknownHold", p, 0), "u", UnkBytes2(M)), W(MkOp("UnknownHandover", p, 0), "u", UnkBytes2(M)) >>
 
 \* read operations on the message at path p
 RECURSIVE RdOpsAt(_, _, _)
